@@ -577,6 +577,12 @@ var _ = strings.Join
 func c06LockStep(c *run.Ctx, r *gen.RNG, s streamCase, transport string) {
 	var frames [][]byte
 	for _, f := range s.frames {
+		if f.Kind == "padded-remlen" {
+			// a decoder may refuse a non-minimal remaining length inside the
+			// fixed header; the stream is lost then and nothing is claimed
+			// about the frames behind it (as in c06Judge)
+			continue
+		}
 		if _, err := ref.ParseHeader(f.Bytes); err == nil {
 			frames = append(frames, f.Bytes)
 		}
